@@ -94,6 +94,8 @@ static void check_ulabel(const char *pre, int row) {
     MC_ADD(C_EVAL, 1); MC_ADD(C_ULABEL, 1);
     int exp = RT_PUNY.row[row].cls;
     if (pre[0] == 0) exp = -EEAV_DOMAIN_NOT_FQDN;
+    { char *a = NULL; int cr = idn2_to_ascii_8z(d, &a, IDN2_NONTRANSITIONAL); int okd = (cr == IDN2_OK) && ref_domain((const unsigned char *)a, strlen(a), 0) == R_ACC; if (a) free(a);
+      if (!okd) return; }      /* the harness's own conversion does not give a valid host name: outside this check's scope */
     if (rc != exp) mc_violation("ulabel", "6531:u-label-class", "", "mode=6531", d, n, "U-label spelling: expected %d (class of '%s'), library rc %d", exp, RT_PUNY.row[row].domain, rc);
 }
 
@@ -140,6 +142,9 @@ static void rows_shard(long shard, void *arg) {
     }
     /* U-label spelling in mode 6531 */
     check_ulabel("a.", (int)shard); check_ulabel("", (int)shard); check_ulabel("abcdefg.xn--p1ai.", (int)shard);
+    /* long non-ASCII labels in front: the UTF-8 spelling exceeds 255 bytes, the A-label form does not */
+    { static char LONGPRE[2][700]; if (!LONGPRE[0][0]) for (int v = 0; v < 2; v++) { int l = 0; for (int k = 0; k < 4 + v; k++) { for (int i = 0; i < 35 - 6 * v; i++) { LONGPRE[v][l++] = (char)0xd0; LONGPRE[v][l++] = (char)(0xb0 + (i + 3 * k) % 16); } LONGPRE[v][l++] = '.'; } LONGPRE[v][l] = 0; }
+      check_ulabel(LONGPRE[0], (int)shard); check_ulabel(LONGPRE[1], (int)shard); }
 }
 static void short_shard(long shard, void *arg) {
     (void)arg; static const char AL[] = "abcdefghijklmnopqrstuvwxyz0123456789"; char d[16] = "a.";
